@@ -118,3 +118,88 @@ class MatrixFromWire(Contract):
         for (r, c) in SHAPES[:7]:
             for bits, mb in ((1, None), (3, None), (8, 64), (5, 3), (17, None)):
                 yield ('%dx%d bits=%d max_bits=%s' % (r, c, bits, mb), mk(r, c, bits, mb))
+
+
+@register
+class MatrixBitsSetter(Contract):
+    """m.bits = b: PyrtlError iff b <= 0; otherwise every element keeps its low min(b, len) bits (truncation of the
+    most significant bits, never an extension) and the element width is recorded.  Elements have arbitrary,
+    mutually different widths (a matrix whose bits was shrunk keeps narrower wires)."""
+    module, qualname, props = 'pyrtl.rtllib.matrix', 'Matrix.bits[setter]', ('C19',)
+    hooks = property(lambda self: W.hooks())
+
+    def cases(self):
+        return ['1x1', '1x2', '2x1', '2x2']
+
+    def setup(self, I, case):
+        from pyvc.engine import SObj
+        r, c = [int(x) for x in case.split('x')]
+        elems = [[W.input_wire(I, 'e%d%d' % (i, j)) for j in range(c)] for i in range(r)]
+        old = [[(W.bw_of(e), W.den_of(e)) for e in row] for row in elems]
+        b = I.st.fresh_int('b')
+        m = SObj('Matrix', dict(rows=r, columns=c, _matrix=[list(row) for row in elems], _bits=I.st.fresh_int('oldbits')))
+        return NS(self=m, args=[b], b=b.t, r=r, c=c, old=old)
+
+    def raises(self, ns):
+        return [('PyrtlError', ns.b <= 0)]
+
+    def post(self, ns):
+        import z3
+        from pyvc.engine import term, SObj
+        rows = _elems(ns.self)
+        F = z3.BoolVal(False)
+        if rows is None or len(rows) != ns.r or any(len(x) != ns.c for x in rows):
+            return [('the matrix keeps its shape', F)]
+        cl = [('the element width is recorded', term(ns.self.fields['_bits']) == ns.b)]
+        for i in range(ns.r):
+            for j in range(ns.c):
+                e = rows[i][j]
+                if not isinstance(e, SObj) or e.fields.get('bitwidth') is None or e.fields.get('_den') is None:
+                    cl.append(('element (%d,%d) is a driven wire' % (i, j), F))
+                    continue
+                ow, od = ns.old[i][j]
+                nw = H.If(ns.b < ow, ns.b, ow)
+                cl.append(('element (%d,%d) is at most the new width wide and never widened' % (i, j), W.bw_of(e) == nw))
+                cl.append(('element (%d,%d) keeps exactly its low bits (the most significant bits are truncated)'
+                           % (i, j), W.den_of(e) == H.mod(od, H.pow2(nw))))
+        return cl
+
+    def concrete(self, tier='quick'):
+        def mk(r, c, bits, seq):
+            def thunk():
+                import pyrtl
+                from pyrtl.rtllib.matrix import Matrix
+                pyrtl.reset_working_block()
+                a = pyrtl.Input(bits * r * c, 'a')
+                m = Matrix(r, c, bits, value=a, max_bits=None)
+                for b in seq:
+                    m.bits = b
+                outs = {}
+                for i in range(r):
+                    for j in range(c):
+                        o = pyrtl.Output(len(m[i, j]), 'o_%d_%d' % (i, j))
+                        o <<= m[i, j]
+                        outs[(i, j)] = o
+                wv = m.to_wirevector()
+                ow = pyrtl.Output(len(wv), 'ow')
+                ow <<= wv
+                sim = pyrtl.Simulation()
+                n = bits * r * c
+                keep = min([bits] + list(seq))
+                last = seq[-1]
+                for x in (0, (1 << n) - 1, 0x9E3779B97F4A7C15F39CC0605CEDC834 % (1 << n), 0x5A5A5A5A5A5A5A5A5A % (1 << n)):
+                    sim.step({'a': x})
+                    tot = 0
+                    for (i, j), o in outs.items():
+                        k = (r - 1 - i) * c + (c - 1 - j)
+                        exp = ((x >> (k * bits)) & ((1 << bits) - 1)) & ((1 << keep) - 1)
+                        if sim.inspect(o.name) != exp:
+                            return False, ((i, j), sim.inspect(o.name)), exp
+                        tot |= exp << (k * last)
+                    if sim.inspect('ow') != tot or len(wv) != last * r * c:
+                        return False, ('to_wirevector', sim.inspect('ow'), len(wv)), (tot, last * r * c)
+                return m.bits == last, m.bits, last
+            return thunk
+        for (r, c) in ((1, 1), (2, 2), (2, 3)):
+            for bits, seq in ((4, (2,)), (4, (6,)), (5, (2, 6)), (6, (3, 8, 2, 7)), (3, (3,)), (8, (1, 8))):
+                yield ('%dx%d bits=%d then %s' % (r, c, bits, list(seq)), mk(r, c, bits, seq))
